@@ -89,6 +89,7 @@ def run(ck, F):
             ck.violation("R1", "return-tested-unused", s.get("sp", fb["span"]),
                          f"make_abbreviated_namespace can return an abbreviation without having tested it against the existing ones ({why})", fn="make_abbreviated_namespace")
     # ---- R2 / R3
+    CE = og.CallExpander(F)
     sums = [s for s in og.field_summaries(F, "model::Namespace") if "Clone" not in s[0] and "tests" not in s[0]]
     ck.floor("R3", "Namespace construction sites", len(sums), 2)
     for (fn, site, ctx, fields, base) in sums:
@@ -108,12 +109,27 @@ def run(ck, F):
                 ck.violation("R3", "abbreviation-of-other-uri", site, f"{short}: abbreviation derived from {og.nf_str(ab[2][0])} but namespace is {og.nf_str(uri)}", fn=fn)
         else:
             ck.violation("R2", "abbreviation-source", site, f"{short}: abbreviation = {og.nf_str(ab)[:80]} does not come from make_abbreviated_namespace", fn=fn)
-        if md and md[0] == "call" and md[1].endswith("create_mod_name_for_namespace") and md[2][0] == ab:
-            ck.ok("R3", "module-from-abbreviation", site, f"{short}: rust_mod_name = create_mod_name_for_namespace(same abbreviation)", fn=fn)
+        md_e = CE.expand(md) if md else None
+        only_ab = False
+        if md_e is not None and ab is not None:
+            rest = og.nf_replace(md_e, CE.expand(ab), ("lit", "<abbreviation>"))
+            rest = og.nf_replace(rest, ab, ("lit", "<abbreviation>"))
+            only_ab = "<abbreviation>" in og.nf_str(rest) and not [r for r in og.nf_roots(rest) if r[0] != "lit"]
+        if only_ab:
+            ck.ok("R3", "module-from-abbreviation", site, f"{short}: rust_mod_name is a function of the same abbreviation only ({og.nf_str(md_e)[:50]})", fn=fn)
         else:
             ck.violation("R3", "module-from-abbreviation", site, f"{short}: rust_mod_name = {og.nf_str(md)[:80]} is not derived from the same abbreviation", fn=fn)
         # lookup by URI before construction
-        looked = any(c[0] == "alt" and "find(" in og.nf_str(c[1]) and "namespace" in og.nf_str(c[1]) and c[2] is False for c in ctx)
+        looked = False
+        for c in ctx:
+            if c[0] != "alt":
+                continue
+            ce = og.nf_str(CE.expand(c[1]))
+            found_branch = (c[1][0] == "islet" and c[1][1].startswith("Some(")) or ce.startswith("is_some(")
+            absent = (found_branch and c[2] is False) or (ce.startswith("is_none(") and c[2] is True) or \
+                     (c[1][0] == "islet" and c[1][1].rsplit("::", 1)[-1] == "None" and c[2] is True)
+            if absent and "find(" in ce and ".namespace" in ce and "namespaces" in ce:
+                looked = True
         if not looked:
             # closure passed to unwrap_or_else on a find(..) result: inspect the function's HIR
             b = F.lib.body(fn)
